@@ -72,30 +72,30 @@ func (s *amSchema) resolve(t *amType) *amType {
 
 // capabilities of a source format (what the AM generator may use).
 type amCaps struct {
-	Format        string // jsonschema | openapi | cue | common
-	IntWidths     []string
-	FloatWidths   []string
-	Bytes         bool
-	NonStringConst bool
-	IntEnums      bool
-	NullableRefs  bool
-	NullableBool  bool
-	EnumDefaults  bool
-	StructDefaults bool
-	UnionDefaults bool
-	Unions        bool
-	DiscUnions    bool
-	Maps          bool
-	AnonStructs   bool
-	DateTime      bool
-	Any           bool
-	Recursive     bool
-	NestedCollections bool // array of array, map of map, …
-	Defaults      bool
-	Constraints   bool
-	Nullable      bool
-	Consts        bool
-	Enums         bool
+	Format                   string // jsonschema | openapi | cue | common
+	IntWidths                []string
+	FloatWidths              []string
+	Bytes                    bool
+	NonStringConst           bool
+	IntEnums                 bool
+	NullableRefs             bool
+	NullableBool             bool
+	EnumDefaults             bool
+	StructDefaults           bool
+	UnionDefaults            bool
+	Unions                   bool
+	DiscUnions               bool
+	Maps                     bool
+	AnonStructs              bool
+	DateTime                 bool
+	Any                      bool
+	Recursive                bool
+	NestedCollections        bool // array of array, map of map, …
+	Defaults                 bool
+	Constraints              bool
+	Nullable                 bool
+	Consts                   bool
+	Enums                    bool
 	ObjectLevelNullableUnion bool
 }
 
